@@ -9,6 +9,8 @@ COMMON_NOTE = ("Trusted: Lean 4.33.0 kernel (axioms propext, Classical.choice, Q
                "the compiled Lean driver computes what the kernel-checked definitions denote; the hand-written model is tied to the "
                "code only on the inputs the correspondence explores (reach printed in the evidence); Go stdlib used as oracle. ")
 
+PIPE = "The full pipeline (both entry points, both wrappers, link loading, thresholds incl. certificate route, sublayout recursion, reduction, artifact rules, inspections with real shell commands, summary) is modelled in Lean over explicit oracles (signature primitives, PEM/X.509, clock, command effects) and compared on every run with InTotoVerify / InTotoVerifyWithDirectory on generated supply chains; observables: verdict, summary name/materials/products, the inspection commands that actually ran (marker file), files present afterwards. "
+
 # property -> (claimed, level text, note, technique, design_ref)
 P = {
  "C17": (True,
